@@ -573,9 +573,21 @@ func RunRewrite(behs [][]Step, tr *Trace, env Env, sum *Summary) {
 					}
 				}
 				var b hcl.Body
-				if len(bs) == 1 && bi%2 == 0 {
+				grpf, _ := nodeOf(files[0])["grp"].(float64)
+				switch grp := int(grpf); {
+				case len(bs) == 1 && bi%2 == 0:
 					b = bs[0]
-				} else {
+				case len(bs) >= 2 && grp == 1: // from the left: merge(merge(f1, f2), f3)
+					b = hcl.MergeBodies([]hcl.Body{bs[0], bs[1]})
+					for _, x := range bs[2:] {
+						b = hcl.MergeBodies([]hcl.Body{b, x})
+					}
+				case len(bs) >= 2 && grp == 2: // from the right: merge(f1, merge(f2, f3))
+					b = hcl.MergeBodies([]hcl.Body{bs[len(bs)-2], bs[len(bs)-1]})
+					for i := len(bs) - 3; i >= 0; i-- {
+						b = hcl.MergeBodies([]hcl.Body{bs[i], b})
+					}
+				default:
 					b = hcl.MergeBodies(bs)
 				}
 				if hasDyn && order == 1 { // merge, then expand
